@@ -251,6 +251,21 @@ def run(ctx):
     fc = repo.func("forsys.virtual_edges.create_edges_new")
     ctx.touch(fc)
     sc = sym.summarize(repo, fc.qualname)
+    # de-duplication through a mapping: the key has to determine the interface (its whole vertex list, possibly order-free);
+    # a key made of selected components (ends, length) merges different interfaces that agree on them
+    for en in rules.entries(sc):
+        if not en.loops() or en.key is None:
+            continue
+        item = en.elem
+        whole = [x for x in T.subterms(en.key) if x == item]
+        parts_only = [x for x in T.subterms(en.key) if (x[0] == "idx" and x[1] == item) or (x[0] == "call" and x[1] == "len" and x[2] == (item,))]
+
+        def strip(t):
+            return T.transform(t, lambda x: T.sym("$part") if x in parts_only else None)
+        if parts_only and not any(x == item for x in T.subterms(strip(en.key))):
+            ctx.violation("KEY", f"{fc.qualname} / KEY / de-duplication key determines the interface", ctx.where(fc, en.node),
+                          f"interfaces are de-duplicated under the key {T.show(T.alpha(en.key))[:120]}, built from selected components of the vertex list only: "
+                          f"two different interfaces that agree on them (same end junctions, same number of points) are merged into one and the second is lost")
     rets = [n for n in ast.walk(fc.node) if isinstance(n, ast.Return) and isinstance(n.value, ast.Name)]
     if len(rets) != 1:
         raise AnalysisError("create_edges_new: cannot identify the returned list variable - re-bind the anchor")
